@@ -964,7 +964,7 @@ class WSGIApp:
             parent.add_referable(new_submodel_element)
         except model.AASConstraintViolation as e:
             if e.constraint_id != 22:
-                raise
+                raise UnprocessableEntity(str(e)) from e
             raise Conflict(f"SubmodelElement with idShort {new_submodel_element.id_short} already exists "
                            f"within {parent}!")
         submodel = self._get_submodel(url_args)
